@@ -31,7 +31,7 @@
     24 missing original_destination_connection_id   25 missing initial_source_connection_id
     26 received duplicate transport parameter <aux=id>
     27 unknown transport parameter marshaling version (session ticket)
-    97 "TransportParameter BUG" (unreachable default of readNumericTransportParameter)
+    97 the "BUG" default of the numeric reader (unreachable: the caller passes numeric ids only)
     98 model out of fuel (never produced by the code; [unmarshal] always supplies enough) *)
 From Coq Require Import List ZArith Bool.
 From V Require Import Gen.Params Lib.Hex Wire.Varint Wire.FramesBase.
@@ -51,7 +51,7 @@ Record paddr := mkPA {
   pa_cid : list Z;
   pa_srt : list Z }.
 
-(** TransportParameters; durations in nanoseconds (time.Duration), optional pointers as option,
+(** The Go struct; durations in nanoseconds (time.Duration), optional pointers as option,
     connection IDs and tokens as byte lists. Field order = the dump of harness/wire/tparams.go. *)
 Record tparams := mkTP {
   tp_imsd_bl : Z;   (* InitialMaxStreamDataBidiLocal *)
@@ -175,7 +175,7 @@ Definition is_numeric (id : Z) : bool :=
   (id =? TP_ID_mad) || (id =? TP_ID_mdfs) || (id =? TP_ID_ade) || (id =? TP_ID_acil) ||
   (id =? TP_ID_minad).
 
-(** readNumericTransportParameter(b, paramID, expectedLen): [b] is the whole remaining input *)
+(** the numeric reader (b, paramID, expectedLen): [b] is the whole remaining input *)
 Definition read_numeric (b : list Z) (id plen : Z) (p : tparams) : res tparams :=
   match vparse b with
   | inl EOF => Err E_TP_READ_EOF id
@@ -377,7 +377,7 @@ Definition enc_grease (rnd : list Z) : list Z :=
 
 (** Marshal(pers).  Durations are divided with Go's truncating division; the model uses [/],
     which agrees for the non-negative values Marshal accepts (negative ones make
-    quicvarint.Append panic).  AdditionalTransportParametersClient is taken to be empty. *)
+    quicvarint.Append panic).  The package-level map of additional client parameters is taken to be empty. *)
 Definition marshal (pers : perspective) (rnd : list Z) (p : tparams) : list Z :=
   match tp_override p with
   | Some raw => raw
